@@ -102,6 +102,15 @@ def extra():
                 "q": {"content": "text*"},
                 "text": {},
             }, "marks": {"em": {}}}), "bridge"),
+            # the same idea with leaf p / q (aimed cases of harness/props/c04_guard.py)
+            SchemaInfo(Schema({"nodes": {
+                "doc": {"content": "(A|B|C)*"}, "A": {"content": "p q*"}, "B": {"content": "q+"}, "C": {"content": "(p|q)*"},
+                "p": {}, "q": {}, "text": {},
+            }}), "bridge-local"),
+            # a node that holds at most one text: a gap cut inside that text cannot be put back (see C04-around-text-gap)
+            SchemaInfo(Schema({"nodes": {
+                "doc": {"content": "(X|Z)*"}, "X": {"content": "text?"}, "Z": {"content": "text*"}, "text": {},
+            }}), "optional-text-local"),
         ]
     return _EXTRA
 
